@@ -70,19 +70,39 @@ fn symmetric(p: &Pos) -> bool {
 fn check(bytes: &[u8], stats: &mut Stats) -> Verdict {
     let mut s = Src::new(bytes);
     let n = 2 + s.below(59);
+    let mut seq: Vec<(Pos, &'static str)> = Vec::new();
+    for _ in 0..n {
+        let item = if s.chance(20) {
+            (g_extreme(&mut s), "extreme")
+        } else if !seq.is_empty() && s.chance(15) {
+            // revisit an earlier position of the sequence (purity across history)
+            (seq[s.below(seq.len())].0.clone(), "revisit")
+        } else {
+            gen::g_mix(&mut s)
+        };
+        seq.push(item);
+    }
+    judge_sequence(&seq, stats)
+}
+
+/// One evaluator fed the whole sequence; every law is checked at every element.
+pub fn judge_sequence(seq: &[(Pos, &'static str)], stats: &mut Stats) -> Verdict {
     let mut long_lived = Evaluator::new();
     let mut seen: Vec<(String, i32)> = Vec::new();
-    for i in 0..n {
-        let (p, kind) = if s.chance(20) {
-            (g_extreme(&mut s), "extreme")
-        } else if !seen.is_empty() && s.chance(15) {
-            // revisit an earlier position of the sequence (purity across history)
-            let (f, _) = &seen[s.below(seen.len())];
-            (Pos::from_fen(f).unwrap().0, "revisit")
-        } else {
-            let (p, k) = gen::g_mix(&mut s);
-            (p, k)
-        };
+    let r = judge_sequence_inner(seq, &mut long_lived, &mut seen, stats);
+    r.map_err(|mut f| {
+        let mut fens: Vec<String> = seen.iter().map(|x| x.0.clone()).collect();
+        if let Some(x) = f.detail.get("fen").and_then(|x| x.as_str()) {
+            fens.push(x.to_string());
+        }
+        f.detail["replay"] = json!({"sequence": fens});
+        f
+    })
+}
+
+fn judge_sequence_inner(seq: &[(Pos, &'static str)], long_lived: &mut Evaluator, seen: &mut Vec<(String, i32)>, stats: &mut Stats) -> Verdict {
+    for (i, (p, kind)) in seq.iter().enumerate() {
+        let (p, kind) = (p.clone(), *kind);
         stats.class(&format!("gen_{}", kind));
         let fen = eng::fen(&p);
         let b = guarded("Board::new", || eng::to_board(&p))?;
@@ -147,6 +167,28 @@ pub fn run(tier: Tier, seed: u64, known: &Known) -> PropRun {
     run
 }
 
-pub fn replay(_part: &str, bytes: &[u8], _case: &Value, stats: &mut Stats) -> Verdict {
+pub fn replay(_part: &str, bytes: &[u8], case: &Value, stats: &mut Stats) -> Verdict {
+    // structural replay: the saved sequence of positions (or the single position of older files)
+    let fens: Vec<String> = match case.get("replay").and_then(|r| r.get("sequence")).and_then(|x| x.as_array()) {
+        Some(a) => a.iter().filter_map(|x| x.as_str().map(|s| s.to_string())).collect(),
+        None => {
+            let mut v: Vec<String> = case.get("sequence_before").and_then(|x| x.as_array()).map(|a| a.iter().filter_map(|x| x.as_str().map(|s| s.to_string())).collect()).unwrap_or_default();
+            if let Some(f) = case.get("fen").and_then(|x| x.as_str()) {
+                v.push(f.to_string());
+            }
+            v
+        }
+    };
+    if !fens.is_empty() {
+        let mut seq: Vec<(Pos, &'static str)> = Vec::new();
+        for f in &fens {
+            if let Some(p) = eng::pos_from_saved_fen(f) {
+                seq.push((p, "replay"));
+            }
+        }
+        if seq.len() == fens.len() {
+            return judge_sequence(&seq, stats);
+        }
+    }
     check(bytes, stats)
 }
